@@ -18,8 +18,9 @@ def claim(pid, category, text, note, technique, ref):
 
 # ---- claims (kept in sync with tools/checks/*.py) ------------------------------------------------
 try:
-    from claims import register  # type: ignore
+    from claims import register, register_r4  # type: ignore
     register(claim)
+    register_r4(CLAIMED)
 except ImportError:
     pass
 
